@@ -60,6 +60,7 @@ GFA2 = {
     "u3": ("U\tu3\to1", ["o1"]),
     "u4": ("U\tu4\tu1 C", ["u1", "sC"]),
     "u5": ("U\tu5\tg1 A", ["g1"]),
+    "u6": ("U\tu6\tg1 A g1", ["g1"]),                       # the same gap listed twice
     "ua": ("U\tus\tA", ["sA"]),
     "ub": ("U\tus\tB\txx:i:1", ["sB"]),
     "uz": ("U\tuz\tA\tcv:i:0", ["sA"]),                     # a group with a falsy tag value
